@@ -134,6 +134,12 @@ C["C14"] = dict(assumptions=["metainfo parser replaced by 'parses to a fixed 2-p
     H("ZZRegistrySeq", "torrent", "every sequence of 3 AddTorrent/RemoveTorrent operations on a real Session value with a 2-port range (explicit or generated ids; metainfo rejection, storage failure, resume-write failure injected arbitrarily): ids unique, no two live torrents share a port, every port free or owned exactly once, failed add releases exactly its port and registers nothing, session torrents == resume records", T(40, 1800, 4, 5, flags=["-nospawn"]), T(40, 1800, 4, 5, flags=["-nospawn"]), replay="model"),
 ])
 
+C["C05"]["harnesses"] += [
+    H("ZZCrashOrder", "torrent", "effect log of storage writes and resume-database updates over up to two complete-piece cycles (real piece writer: arbitrary content vs arbitrary recorded hash, disk write may fail) followed optionally by stop: for every prefix of the log (= every crash instant) the last persisted bitfield claims only pieces verified before the run or whose complete hash-checked data was written earlier", T(40, 900, flags=["-nospawn"]), T(40, 900, flags=["-nospawn"]), replay="model"),
+    H("ZZResumeTrust", "torrent", "allocation result vs resume bitfield, all combinations: resume bits trusted only if no file is missing; all files missing => empty bitfield; otherwise full re-verification and no piece trusted meanwhile", T(40, 900, flags=["-nospawn"]), T(40, 900, flags=["-nospawn"]), replay="model"),
+]
+C["C05"]["assumptions"] += ["a returned WriteAt is durable (O_SYNC, checked by ZZOpenSync; kernel behaviour outside)", "one resume update = one atomic bbolt transaction (bbolt's own crash atomicity outside)", "the periodic stats writer goroutine is outside the claim (it persists the same in-memory bitfield under the read lock)"]
+
 for pid, spec in C.items():
     spec = dict(property=pid, **spec)
     json.dump(spec, open(os.path.join(D, pid + ".json"), "w"), indent=1)
